@@ -107,6 +107,13 @@ class Base(probe.Contract):
         check_returned(self.api, res)
         if any(s is None for s in st['snaps']):
             return
+        try:
+            big = any(tt_consistent(t)[0] and dense_size(t.cores) > MAX_DENSE for t in _find_tts([res], []))
+        except Exception:
+            big = False
+        if big:  # operands small, result (tensordot / concatenate / products of a long history) not densifiable
+            core.ctx().skip('skipped_large_result')
+            return
         self.value(st, res, args, kwargs)
 
     def value(self, st, res, args, kwargs):
